@@ -19,7 +19,7 @@ EXPLANATION = (
     " (R5) reused destination: every entry->Ok path of parse_record_buf and try_clone_from_alignment_record overwrites or clears each of the twelve columns (a `*` sentinel must reset the column, not skip it); (R6) append-buffer discipline: every read_line/read_until site of the SAM readers and of the BAM header's text reader is preceded, on all entry paths and all cycles, by a reset of the buffer it appends to."
     " (R7) the SAM-text header sub-reader state machine (sam, bam, cram; sync and async) performs per trait method the same constant stores into its state fields as the majority of its ten copies."
     " R3 also decides that the binary reference list replaces the text dictionary only behind the is_empty() edge (sync and async), so @SQ fields that exist only in the text are not dropped."
-    " (R8) a function outside the type's module that takes the raw bytes of a 4-bit packed sequence also consults the base count (decoding the bytes alone writes the padding nibble of an odd-length read as a base).")
+    " (R8) a function outside the type's module that takes the raw bytes of a 4-bit packed sequence also consults the base count (decoding the bytes alone writes the padding nibble of an odd-length read as a base). (R9) the SAM text writers hand every field to the sink whole: no raw Write::write in noodles_sam::io::writer (a short count would drop the tail of a field while the line goes on).")
 ASSUMPTIONS = ["float formatting/parsing, integer width selection for `i` tags and the header grammar are value-level (unit tests)"]
 NOT_DECIDED = ["float text forms, integer tag widths, fixed-point byte equality, full header record grammar and field order",
                "equality of SAM- and BAM-read records beyond the shared data model"]
@@ -199,6 +199,27 @@ def run(ctx):
                           "bases the padding nibble of the last byte is emitted as an extra base (`=`), so BAM -> SAM adds a base to every "
                           "odd-length read" % k, f.loc(raw[0]))
     ctx.floor("C06.R8", "functions outside the type's module that take the raw packed bytes", n8, 1)
+
+    ctx.rule("C06.R9", "A5b the SAM text writers hand every field to the sink whole: no raw Write::write (whose short count would drop the "
+                       "tail of a field while the line goes on) in noodles_sam::io::writer, only write_all / write! / delegation")
+    from .. import a5 as _a5
+    n9 = 0
+    for s9 in _a5.raw_io_sites(fb, _a5.RAW_WRITE):
+        if not s9["fn"].startswith(("noodles_sam::io::writer", "<noodles_sam::io::writer", "noodles_sam::r#async::io::writer")):
+            continue
+        f9 = fb.fns[s9["fn"]]
+        ctx.saw_fn(f9)
+        if s9["class"] == "delegation":
+            ctx.ok("C06.R9", s9["fn"], "delegation", f9.loc(s9["block"]))
+        else:
+            ctx.violation("C06.R9", "C06.R9/short-write/%s" % s9["fn"],
+                          "%s hands a field to the sink with raw %s: when the sink accepts only a prefix (a BGZF writer at its block end, a "
+                          "pipe) the rest of the field is dropped and the record line continues, so the text no longer describes the record" % (
+                              s9["fn"], s9["callee"].split("::")[-1]), f9.loc(s9["block"]))
+    for k9, f9 in fb.fns.items():
+        if k9.startswith("noodles_sam::io::writer::record") and f9.blocks:
+            n9 += sum(1 for b, c in f9.calls() if (c.get("f") or "").endswith("::write_all"))
+    ctx.floor("C06.R9", "write_all call sites in the SAM record writer (positive control of the zero-expected rule)", n9, 20)
 
     ctx.rule("C06.R4", "A3 pairing: RNEXT '=' produced only by the mate-name writer and expanded by the parser's mate arm")
     eqs = [k for k, c in fb.consts.items() if k.startswith(S) and c.get("v", c.get("raw")) in (0x3d, "3d") and re.search(r"(EQ|SAME|IDENTICAL)", k.split("::")[-1])]
